@@ -2,13 +2,22 @@
    Only statements closed by [exact]; proofs live in proof/HttpRangeProofs.v and
    proof/HttpRangeParseProofs.v.  The model (model/HttpRange.v) is the code as it is.
 
-   FULL statement (c32_exact): for every blob, every Range header and every
+   FULL statement (c32_exact): for every stored blob, every Range header and every
    Accept-Encoding, the answer is 206 with exactly the requested bytes (the
-   satisfiable specs, in order; multipart when several), 416 only when nothing
-   is satisfiable, or 200 with the complete content; gzip only when accepted.
-   The code violates it in six ways (known findings k=0..5): each has a
+   satisfiable specs, in order; multipart when several, completely framed and with
+   a Content-Length equal to what is sent), 416 only when nothing is satisfiable
+   (or a spec is invalid, RFC 7233 4.4), or 200 with the complete content; gzip
+   only when accepted; a blob whose stored gzip stream is corrupt is not served
+   as if it were content.
+   The code violates it in eight ways (known findings k=0..7): each has a
    [_refuted] witness below, and the statement is proved under the decidable
-   hypothesis that the input is outside the trigger sets ([_partial]). *)
+   hypothesis that the input is outside the trigger sets ([_partial]).
+   Header text: a [string] is a sequence of BYTES; white space is every
+   unicode.IsSpace rune in UTF-8, as strings.TrimSpace sees it.  The statements
+   about structured headers cover EVERY spelling parseRange accepts ([renders]);
+   numbers are unbounded (those above int64 max are finding 6).
+   Hypothesis [mp_fits]: the multipart framing arithmetic (sum of the range
+   lengths + the size of the part headers) stays below 2^63. *)
 From Coq Require Import List NArith ZArith Bool String.
 From SW Require Import model.HttpRange proof.HttpRangeProofs proof.HttpRangeParseProofs.
 Import ListNotations.
@@ -16,12 +25,23 @@ Local Open Scope Z_scope.
 
 (* ---- the parser ---- *)
 
-(* parseRange on the text of a header equals the structured parser on its specs *)
-Theorem c32_parser_agrees : forall sps size, 0 <= size <= int64_max ->
-  (forall sp, In sp sps -> spec_small sp) ->
+(* parseRange on ANY spelling of a list of specs (white space of every kind around the
+   elements and the '-', '+', leading zeros, empty elements) equals the structured parser *)
+Theorem c32_parser_agrees : forall sps hdr size, 0 <= size <= int64_max ->
+  renders sps hdr -> parse_range hdr size = parse_specs sps size.
+Proof. exact renders_parse. Qed.
+Print Assumptions c32_parser_agrees.
+
+Theorem c32_parser_agrees_items : forall its size, 0 <= size <= int64_max -> items_ok its = true ->
+  parse_range (render_header its) size = parse_specs (specs_of its) size.
+Proof. exact parse_range_render. Qed.
+Print Assumptions c32_parser_agrees_items.
+
+(* in particular on the canonical text, for numbers of any size *)
+Theorem c32_parser_agrees_print : forall sps size, 0 <= size <= int64_max ->
   parse_range (print_header sps) size = parse_specs sps size.
 Proof. exact parse_range_print. Qed.
-Print Assumptions c32_parser_agrees.
+Print Assumptions c32_parser_agrees_print.
 
 (* "bytes=a-b", a <= b, a < size  ==>  [(a, min(b,size-1)-a+1)] *)
 Theorem c32_parse_closed : forall a b size, 0 <= size <= int64_max -> Z.of_N b <= int64_max ->
@@ -42,86 +62,151 @@ Theorem c32_parse_suffix : forall n size, 0 <= size <= int64_max -> Z.of_N n <= 
 Proof. exact parse_range_suffix. Qed.
 Print Assumptions c32_parse_suffix.
 
-(* "bytes=a-b" with a > size is an error (416) *)
-Theorem c32_parse_beyond : forall a b size, 0 <= size <= int64_max ->
-  Z.of_N a <= int64_max -> Z.of_N b <= int64_max -> size < Z.of_N a ->
+(* "bytes=a-b" with a > size is an error (416), whatever b *)
+Theorem c32_parse_beyond : forall a b size, 0 <= size <= int64_max -> size < Z.of_N a ->
   parse_range (print_header [RClosed a b]) size = None.
 Proof. exact parse_range_beyond. Qed.
 Print Assumptions c32_parse_beyond.
 
-(* whenever the RFC says a spec selects bytes, parseRange computes exactly those bytes *)
+(* a number above int64 max anywhere is an error (416) *)
+Theorem c32_parse_big : forall sp size, 0 <= size <= int64_max -> spec_big sp = true ->
+  parse_range (print_header [sp]) size = None.
+Proof. exact parse_range_big. Qed.
+Print Assumptions c32_parse_big.
+
+(* whenever the RFC says a spec selects bytes, the arithmetic of parseRange computes exactly those bytes ... *)
 Theorem c32_parse_spec_is_reference : forall sp size r, ref_spec sp size = Some r -> parse_spec sp size = Some r.
 Proof. exact parse_spec_ref. Qed.
 Print Assumptions c32_parse_spec_is_reference.
+(* ... and so does parseRange itself when the numbers fit int64 (k=6 otherwise) *)
+Theorem c32_parse_spec64_partial : forall sp size r, spec_big sp = false ->
+  ref_spec sp size = Some r -> parse_spec64 sp size = Some r.
+Proof. exact parse_spec64_ref. Qed.
+Print Assumptions c32_parse_spec64_partial.
 
-(* on ANY header text: every returned range has a negative length (finding 3) or lies inside the blob *)
+(* the parser alone on every spelling: outside k=2,4,6 it returns exactly the RFC's ranges, or
+   refuses only what may be refused *)
+Theorem c32_parse_only_partial : forall its size, 0 <= size <= int64_max -> items_ok its = true ->
+  trig_parse_specs (specs_of its) size = None ->
+  parse_spec_ok (specs_of its) size (parse_range (render_header its) size) = true.
+Proof. exact parse_only_partial. Qed.
+Print Assumptions c32_parse_only_partial.
+
+(* on any byte string: every returned range has a negative length (finding 3) or lies inside the blob *)
 Theorem c32_parser_sound : forall hdr size rs, 0 <= size <= int64_max ->
   parse_range hdr size = Some rs -> forall r, In r rs ->
   snd r < 0 \/ (0 <= fst r /\ 0 <= snd r /\ fst r + snd r <= size).
 Proof. exact parse_range_sound. Qed.
 Print Assumptions c32_parser_sound.
 
-(* ---- c32_exact on structured headers (through the text parser) ---- *)
+Theorem c32_parse_raw_partial : forall hdr size, 0 <= size <= int64_max ->
+  trig_parse_raw (parse_range hdr size) = None ->
+  parse_raw_ok size (parse_range hdr size) = true.
+Proof. exact parse_raw_partial. Qed.
+Print Assumptions c32_parse_raw_partial.
 
-Theorem c32_exact_partial : forall d sps enc, blen d <= int64_max ->
-  (forall sp, In sp sps -> spec_small sp) ->
-  trig_specs sps (blen d) = None ->
-  spec_ok d sps (process_range (print_header sps) d enc) = true.
+(* ---- c32_exact on structured headers, every spelling (through the text parser) ---- *)
+
+Theorem c32_exact_partial : forall d its enc ct, blen d <= int64_max -> items_ok its = true ->
+  mp_fits (blen d) (slen ct) (ref_ranges (specs_of its) (blen d)) = true ->
+  trig_specs (specs_of its) (blen d) = None ->
+  spec_ok d (specs_of its) (process_range (render_header its) d enc ct) = true.
 Proof. exact exact_partial. Qed.
 Print Assumptions c32_exact_partial.
 
+Theorem c32_exact_partial_print : forall d sps enc ct, blen d <= int64_max ->
+  mp_fits (blen d) (slen ct) (ref_ranges sps (blen d)) = true ->
+  trig_specs sps (blen d) = None ->
+  spec_ok d sps (process_range (print_header sps) d enc ct) = true.
+Proof. exact exact_partial_print. Qed.
+Print Assumptions c32_exact_partial_print.
+
 (* k=0 *)
 Theorem c32_exact_refuted_empty_list :
-  spec_ok abcdef [] (process_range (print_header []) abcdef false) = false /\
+  spec_ok abcdef [] (process_range (print_header []) abcdef false "") = false /\
   print_header [] = "bytes="%string /\
-  process_range "bytes=" abcdef false = {| r_status := 200; r_cr := None; r_cl := None; r_body := Plain [] 0 |}.
+  process_range "bytes=" abcdef false "" = r_nothing.
 Proof. exact refuted_empty_list. Qed.
 Print Assumptions c32_exact_refuted_empty_list.
 
 (* k=1 *)
 Theorem c32_exact_refuted_oversize :
-  spec_ok abcdef [RFrom 0; RFrom 0] (process_range (print_header [RFrom 0; RFrom 0]) abcdef false) = false /\
-  process_range "bytes=0-,0-" abcdef false = {| r_status := 200; r_cr := None; r_cl := None; r_body := Plain [] 0 |}.
+  spec_ok abcdef [RFrom 0; RFrom 0] (process_range (print_header [RFrom 0; RFrom 0]) abcdef false "") = false /\
+  process_range "bytes=0-,0-" abcdef false "" = r_nothing.
 Proof. exact refuted_oversize. Qed.
 Print Assumptions c32_exact_refuted_oversize.
 
 (* k=2 *)
 Theorem c32_exact_refuted_zero_length :
-  spec_ok abcdef [RFrom 6] (process_range (print_header [RFrom 6]) abcdef false) = false /\
-  process_range "bytes=6-" abcdef false =
-    {| r_status := 206; r_cr := Some (6, 5, 6); r_cl := Some 0; r_body := Plain [] 0 |}.
+  spec_ok abcdef [RFrom 6] (process_range (print_header [RFrom 6]) abcdef false "") = false /\
+  process_range "bytes=6-" abcdef false "" =
+    {| r_status := 206; r_ct := ""; r_cr := Some (6, 5, 6); r_cl := Some 0; r_body := Plain [] 0 |}.
 Proof. exact refuted_zero_length. Qed.
 Print Assumptions c32_exact_refuted_zero_length.
 
 (* k=4 *)
 Theorem c32_exact_refuted_mixed :
-  spec_ok abcdef [RClosed 0 1; RClosed 9 10] (process_range (print_header [RClosed 0 1; RClosed 9 10]) abcdef false) = false /\
-  r_status (process_range "bytes=0-1,9-10" abcdef false) = 416%N /\
+  spec_ok abcdef [RClosed 0 1; RClosed 9 10] (process_range (print_header [RClosed 0 1; RClosed 9 10]) abcdef false "") = false /\
+  r_status (process_range "bytes=0-1,9-10" abcdef false "") = 416%N /\
   ref_ranges [RClosed 0 1; RClosed 9 10] (blen abcdef) = [(0, 2)].
 Proof. exact refuted_mixed. Qed.
 Print Assumptions c32_exact_refuted_mixed.
 
-(* ---- c32_exact on arbitrary header text: what is sent is what the response says ---- *)
+(* k=6 *)
+Theorem c32_exact_refuted_big_number :
+  spec_ok abcdef [RClosed 0 9223372036854775808]
+    (process_range (print_header [RClosed 0 9223372036854775808]) abcdef false "") = false /\
+  print_header [RClosed 0 9223372036854775808] = "bytes=0-9223372036854775808"%string /\
+  process_range "bytes=0-9223372036854775808" abcdef false "" = resp_416 3 /\
+  ref_ranges [RClosed 0 9223372036854775808] (blen abcdef) = [(0, 6)] /\
+  ref_spec (RClosed 0 9223372036854775808) 6 = Some (0, 6) /\
+  parse_spec64 (RClosed 0 9223372036854775808) 6 = None.
+Proof. exact refuted_big_number. Qed.
+Print Assumptions c32_exact_refuted_big_number.
 
-Theorem c32_raw_consistent_partial : forall d hdr enc, blen d <= int64_max ->
+(* ---- c32_exact on arbitrary header bytes: what is sent is what the response says ---- *)
+
+Theorem c32_raw_consistent_partial : forall d hdr enc ct, blen d <= int64_max ->
+  mp_fits_hdr hdr d ct = true ->
   trig_parsed (parse_range hdr (blen d)) (blen d) = None ->
-  self_consistent d (process_range hdr d enc) = true.
+  self_consistent d (process_range hdr d enc ct) = true.
 Proof. exact raw_consistent_partial. Qed.
 Print Assumptions c32_raw_consistent_partial.
 
 (* k=3 *)
 Theorem c32_raw_consistent_refuted_negative_suffix :
-  self_consistent abcdef (process_range "bytes=--2" abcdef false) = false /\
-  process_range "bytes=--2" abcdef false =
-    {| r_status := 206; r_cr := Some (8, 5, 6); r_cl := Some (-2); r_body := Plain [] 0 |}.
+  self_consistent abcdef (process_range "bytes=--2" abcdef false "") = false /\
+  process_range "bytes=--2" abcdef false "" =
+    {| r_status := 206; r_ct := ""; r_cr := Some (8, 5, 6); r_cl := Some (-2); r_body := Plain [] 0 |}.
 Proof. exact refuted_negative_suffix. Qed.
 Print Assumptions c32_raw_consistent_refuted_negative_suffix.
 
+(* k=3 inside a multi-range request (int64 wrap): negative Content-Length and nothing sent, or a
+   part header followed by "Internal Error" *)
+Theorem c32_raw_consistent_refuted_negative_suffix_multi :
+  self_consistent abcdef (process_range "bytes=--9223372036854775808,0-0" abcdef false "") = false /\
+  process_range "bytes=--9223372036854775808,0-0" abcdef false "" =
+    {| r_status := 206; r_ct := "multipart/byteranges"; r_cr := None; r_cl := Some (-9223372036854775498);
+       r_body := Multipart "" [] 0 0 |} /\
+  process_range "bytes=--9223372036854775808,--9223372036854775808" abcdef false "" =
+    {| r_status := 206; r_ct := "multipart/byteranges"; r_cr := None; r_cl := Some 328;
+       r_body := Multipart "" [] 1 144 |}.
+Proof. exact refuted_negative_suffix_multi. Qed.
+Print Assumptions c32_raw_consistent_refuted_negative_suffix_multi.
+
+(* trigger 3 is not wider than the finding *)
+Theorem c32_trigger3_narrow :
+  trig_parsed (parse_range "bytes=--2,0-1" 6) 6 = None /\
+  r_status (process_range "bytes=--2,0-1" abcdef false "") = 416%N /\
+  trig_parsed (parse_range "bytes=--2,0-,0-" 6) 6 = Some 1%N.
+Proof. exact trigger3_narrow. Qed.
+Print Assumptions c32_trigger3_narrow.
+
 (* no Range header: 200 with the complete content; HEAD: 200, Content-Length, no body *)
-Theorem c32_no_range_full : forall d enc, full_200 d (process_range "" d enc) = true.
+Theorem c32_no_range_full : forall d enc ct, full_200 d (process_range "" d enc ct) = true.
 Proof. exact no_range_full. Qed.
 Print Assumptions c32_no_range_full.
-Theorem c32_head_full : forall hdr d enc, head_ok d (write_response_content true hdr d enc) = true.
+Theorem c32_head_full : forall hdr d enc ct, head_ok d (write_response_content true hdr d enc ct) = true.
 Proof. exact head_full. Qed.
 Print Assumptions c32_head_full.
 
@@ -141,8 +226,7 @@ Print Assumptions c32_gzip_partial.
 
 (* k=5 *)
 Theorem c32_gzip_refuted :
-  let s := {| st_flag := true; st_data := [31; 139; 8; 0]%N; st_plain := [] |} in
-  snd (negotiate s "gzip;q=0") = true /\ gzip_ok s "gzip;q=0" (snd (negotiate s "gzip;q=0")) = false.
+  snd (negotiate gz_stub "gzip;q=0") = true /\ gzip_ok gz_stub "gzip;q=0" (snd (negotiate gz_stub "gzip;q=0")) = false.
 Proof. exact refuted_gzip_q0. Qed.
 Print Assumptions c32_gzip_refuted.
 
@@ -151,35 +235,63 @@ Theorem c32_gzip_needs_stored_gzip : forall s ae, snd (negotiate s ae) = true ->
 Proof. exact gzip_needs_flag. Qed.
 Print Assumptions c32_gzip_needs_stored_gzip.
 
+(* a stored stream that has to be decompressed decompresses without error, unless k=7 *)
+Theorem c32_corrupt_partial : forall s ae, trig_corrupt s ae = false ->
+  rep_ok s (snd (negotiate s ae)) = true.
+Proof. exact corrupt_partial. Qed.
+Print Assumptions c32_corrupt_partial.
+
+(* k=7 *)
+Theorem c32_corrupt_refuted :
+  rep_ok gz_corrupt (f_gzip (get_or_head false false gz_corrupt "" "")) = false /\
+  f_resp (get_or_head false false gz_corrupt "" "") =
+    {| r_status := 200; r_ct := ""; r_cr := None; r_cl := Some 0; r_body := Plain [] 0 |}.
+Proof. exact refuted_corrupt. Qed.
+Print Assumptions c32_corrupt_refuted.
+
 (* ---- the whole GET ---- *)
 
-Theorem c32_get_partial : forall s ae sps,
-  blen (st_data s) <= int64_max -> blen (st_plain s) <= int64_max ->
-  (forall sp, In sp sps -> spec_small sp) ->
-  trig_gzip s ae = false ->
-  trig_specs sps (blen (fst (negotiate s ae))) = None ->
-  let fr := get_or_head false s ae (print_header sps) in
-  gzip_ok s ae (f_gzip fr) = true /\
-  spec_ok (representation s (f_gzip fr)) sps (f_resp fr) = true.
+Theorem c32_get_partial : forall s ae its dl,
+  blen (st_data s) <= int64_max -> blen (st_plain s) <= int64_max -> items_ok its = true ->
+  trig_gzip s ae = false -> trig_corrupt s ae = false ->
+  let size := blen (fst (negotiate s ae)) in
+  mp_fits size (slen (mime_of s)) (ref_ranges (specs_of its) size) = true ->
+  trig_specs (specs_of its) size = None ->
+  let fr := get_or_head false dl s ae (render_header its) in
+  gzip_ok s ae (f_gzip fr) = true /\ rep_ok s (f_gzip fr) = true /\
+  spec_ok (representation s (f_gzip fr)) (specs_of its) (f_resp fr) = true.
 Proof. exact get_partial. Qed.
 Print Assumptions c32_get_partial.
 
-Theorem c32_get_raw_partial : forall s ae hdr,
+Theorem c32_get_raw_partial : forall s ae hdr dl,
   blen (st_data s) <= int64_max -> blen (st_plain s) <= int64_max ->
-  trig_gzip s ae = false ->
-  trig_parsed (parse_range hdr (blen (fst (negotiate s ae)))) (blen (fst (negotiate s ae))) = None ->
-  let fr := get_or_head false s ae hdr in
-  gzip_ok s ae (f_gzip fr) = true /\
+  trig_gzip s ae = false -> trig_corrupt s ae = false ->
+  let d := fst (negotiate s ae) in
+  mp_fits_hdr hdr d (mime_of s) = true ->
+  trig_parsed (parse_range hdr (blen d)) (blen d) = None ->
+  let fr := get_or_head false dl s ae hdr in
+  gzip_ok s ae (f_gzip fr) = true /\ rep_ok s (f_gzip fr) = true /\
   self_consistent (representation s (f_gzip fr)) (f_resp fr) = true.
 Proof. exact get_raw_partial. Qed.
 Print Assumptions c32_get_raw_partial.
+
+(* every answer carries Accept-Ranges: bytes and the Content-Disposition of the stored name *)
+Theorem c32_common_headers : forall head dl s ae hdr,
+  f_ar (get_or_head head dl s ae hdr) = true /\
+  f_cdisp (get_or_head head dl s ae hdr) = content_disposition (st_name s) dl.
+Proof. exact get_common_headers. Qed.
+Print Assumptions c32_common_headers.
 
 (* the witnesses are inside the trigger sets *)
 Theorem c32_witnesses_triggered :
   trig_specs [] 6 = Some 0%N /\ trig_specs [RFrom 0; RFrom 0] 6 = Some 1%N /\
   trig_specs [RFrom 6] 6 = Some 2%N /\ trig_parsed (parse_range "bytes=--2" 6) 6 = Some 3%N /\
+  trig_parsed (parse_range "bytes=--9223372036854775808,0-0" 6) 6 = Some 3%N /\
   trig_specs [RClosed 0 1; RClosed 9 10] 6 = Some 4%N /\
-  trig_gzip {| st_flag := true; st_data := [31; 139; 8; 0]%N; st_plain := [] |} "gzip;q=0" = true.
+  trig_gzip gz_stub "gzip;q=0" = true /\
+  trig_specs [RClosed 0 9223372036854775808] 6 = Some 6%N /\
+  trig_parse_specs [RClosed 0 9223372036854775808] 6 = Some 6%N /\
+  trig_corrupt gz_corrupt "" = true.
 Proof. exact witnesses_triggered. Qed.
 Print Assumptions c32_witnesses_triggered.
 
@@ -187,16 +299,39 @@ Print Assumptions c32_witnesses_triggered.
 Example c32_example :
   let d := abcdef in
   let sps := [RClosed 0 1; RSuffix 2; RClosed 3 3] in
-  trig_specs sps (blen d) = None /\ print_header sps = "bytes=0-1,-2,3-3"%string /\
-  process_range (print_header sps) d false =
-    {| r_status := 206; r_cr := None; r_cl := Some 0;
-       r_body := Multipart [((0, 1, 6), [97; 98]%N); ((4, 5, 6), [101; 102]%N); ((3, 3, 6), [100]%N)] |}.
+  specs_of example_items = sps /\ items_ok example_items = true /\
+  trig_specs sps (blen d) = None /\ mp_fits (blen d) 0 (ref_ranges sps (blen d)) = true /\
+  print_header sps = "bytes=0-1,-2,3-3"%string /\
+  render_header example_items = append "bytes= +000" (append nbsp (append "-1, ,-02" (append nbsp " ,3-3"))) /\
+  process_range (render_header example_items) d false "" =
+    {| r_status := 206; r_ct := "multipart/byteranges"; r_cr := None; r_cl := Some 407;
+       r_body := Multipart "" [((0, 1, 6), [97; 98]%N); ((4, 5, 6), [101; 102]%N); ((3, 3, 6), [100]%N)] 0 407 |}.
 Proof. exact exact_example. Qed.
+Print Assumptions c32_example.
+Example c32_raw_example :
+  let s := {| st_flag := false; st_data := abcdef; st_plain := abcdef; st_gzok := true;
+              st_name := "a.txt"; st_mime := "text/x-test"; st_extmime := "text/plain; charset=utf-8" |} in
+  let hdr := append "bytes=" (append nbsp " 1 - +02 ,,") in
+  trig_gzip s "" = false /\ trig_corrupt s "" = false /\
+  mp_fits_hdr hdr abcdef (mime_of s) = true /\
+  trig_parsed (parse_range hdr 6) 6 = None /\
+  get_or_head false true s "" hdr =
+    {| f_resp := {| r_status := 206; r_ct := "text/x-test"; r_cr := Some (1, 2, 6); r_cl := Some 2;
+                    r_body := Plain [98; 99]%N 0 |};
+       f_gzip := false; f_cdisp := "attachment; filename=""a.txt"""; f_ar := true |} /\
+  trig_parsed (parse_range "bytes=0-1,2--3" 6) 6 = None /\
+  process_range "bytes=0-1,2--3" abcdef false "" = resp_416 3.
+Proof. exact raw_example. Qed.
+Print Assumptions c32_raw_example.
 Example c32_gzip_example :
-  let s := {| st_flag := true; st_data := [31; 139; 8; 0; 9]%N; st_plain := [104; 105]%N |} in
+  let s := {| st_flag := true; st_data := [31; 139; 8; 0; 9]%N; st_plain := [104; 105]%N; st_gzok := true;
+              st_name := ""; st_mime := ""; st_extmime := "" |} in
   trig_gzip s "deflate, gzip;q=0.5" = false /\
-  get_or_head false s "deflate, gzip;q=0.5" "bytes=1-2" =
-    {| f_resp := {| r_status := 206; r_cr := Some (1, 2, 5); r_cl := Some 2; r_body := Plain [139; 8]%N 0 |}; f_gzip := true |} /\
-  get_or_head false s "identity" "bytes=1-2" =
-    {| f_resp := {| r_status := 206; r_cr := Some (1, 1, 2); r_cl := Some 1; r_body := Plain [105]%N 0 |}; f_gzip := false |}.
+  f_resp (get_or_head false false s "deflate, gzip;q=0.5" "bytes=1-2") =
+    {| r_status := 206; r_ct := ""; r_cr := Some (1, 2, 5); r_cl := Some 2; r_body := Plain [139; 8]%N 0 |} /\
+  f_gzip (get_or_head false false s "deflate, gzip;q=0.5" "bytes=1-2") = true /\
+  f_resp (get_or_head false false s "identity" "bytes=1-2") =
+    {| r_status := 206; r_ct := ""; r_cr := Some (1, 1, 2); r_cl := Some 1; r_body := Plain [105]%N 0 |} /\
+  f_gzip (get_or_head false false s "identity" "bytes=1-2") = false.
 Proof. exact gzip_example. Qed.
+Print Assumptions c32_gzip_example.
